@@ -110,9 +110,10 @@ def main():
             rep = {'harness_error': traceback.format_exc()}
         proto.write(json.dumps(rep) + '\n')
         proto.flush()
-    mod_close = getattr(env, 'close', None)
-    if mod_close:
-        mod_close()
+    for v in env.cache.values():
+        close = getattr(v, 'close', None)
+        if close:
+            close()
     return 0
 
 
